@@ -15,7 +15,7 @@ EXPLANATION = (
     "return path - no stage skipped or reordered; (BOUND) novelty clamp stores +-cap on the |d|>cap branch and the input "
     "otherwise, the L2 stage multiplies by cap/norm only where norm>cap, the churn stage keeps the input when n<=k and "
     "otherwise the first k of a sort by (-|d|, canonical key), the cooldown filter removes exactly the blocked op "
-    "indices and reports them sorted; (PROV) every constructed delta copies its target from an input delta; "
+    "indices and reports them sorted; (PROV) every constructed delta copies its target from an input delta and the Optional[int] provenance indices (op_idx / idx) are tested by identity, never by truthiness; "
     "(ORDERINS) duplicates are summed order-independently, keyed injectively, every stage output is in canonical "
     "order or sorted by a total key. Not decided: the numeric envelope to the last ulp, NaN/denormal behaviour."
 )
@@ -323,6 +323,109 @@ def rule_prov(ctx) -> None:
     ctx.floor("C03.PROV", "ProposedDelta constructors", n, 3)
 
 
+def _optional_fields(ctx) -> Set[str]:
+    """dataclass fields of ProposedDelta annotated Optional[int]: 0 is a valid index, None means unknown"""
+    m = ctx.prog.module("clematis.engine.types")
+    out: Set[str] = set()
+    for x in ast.walk(m.tree):
+        if isinstance(x, ast.ClassDef) and x.name == "ProposedDelta":
+            for st in x.body:
+                if isinstance(st, ast.AnnAssign) and isinstance(st.target, ast.Name) and "Optional[int]" in src(st.annotation).replace(" ", ""):
+                    out.add(st.target.id)
+    if not out:
+        raise AnalysisError("anchor-vanished: Optional[int] provenance fields of ProposedDelta")
+    return out
+
+
+def _truthy_operands(test: ast.AST) -> List[ast.AST]:
+    """sub-expressions whose *truthiness* (not identity / ordering) decides `test`"""
+    if isinstance(test, ast.UnaryOp) and isinstance(test.op, ast.Not):
+        return _truthy_operands(test.operand)
+    if isinstance(test, ast.BoolOp):
+        return [y for v in test.values for y in _truthy_operands(v)]
+    if isinstance(test, (ast.Name, ast.Attribute, ast.Subscript)):
+        return [test]
+    if isinstance(test, ast.Call) and dotted(test.func) == "bool" and test.args:
+        return _truthy_operands(test.args[0])
+    return []
+
+
+def rule_prov_index(ctx) -> None:
+    """provenance indices (op_idx / idx and anything typed Optional[int]) are tested by identity (`is None`), never by
+    truthiness: index 0 is a known provenance - conflating it with None lets a delta of op #0 escape the cooldown filter"""
+    from ..dataflow import Taint
+    fields = _optional_fields(ctx)
+    m = ctx.prog.module(T4)
+    n_opt = 0
+    for fn in m.funcs.values():
+        opt_params = set()
+        a = fn.node.args
+        for x in a.posonlyargs + a.args + a.kwonlyargs:
+            if x.annotation is not None and "Optional[int]" in src(x.annotation).replace(" ", ""):
+                opt_params.add(x.arg)
+        cfg = ctx.cfg(fn)
+        rd = ctx.rd(fn)
+
+        def source(e, n):
+            if isinstance(e, ast.Attribute) and e.attr in fields:
+                return {"OPT"}
+            return set()
+
+        def cleanse(e, at, labels):
+            # a comparison / call result is no longer the index itself
+            if isinstance(e, (ast.Compare, ast.BinOp)) or (isinstance(e, ast.Call) and dotted(e.func) not in ("min", "max", "_min_optional_int", "list", "tuple", "sorted")):
+                return set(labels) - {"OPT", "OPTS"}
+            if isinstance(e, (ast.List, ast.Tuple, ast.Set, ast.ListComp, ast.SetComp, ast.GeneratorExp, ast.Dict, ast.DictComp)) and "OPT" in labels:
+                return (set(labels) - {"OPT"}) | {"OPTS"}  # a collection of indices: its emptiness test is not an index test
+            if isinstance(e, ast.Call) and dotted(e.func) in ("min", "max") and "OPTS" in labels:
+                return (set(labels) - {"OPTS"}) | {"OPT"}
+            return labels
+
+        t = Taint(rd, source, cleanse=cleanse, param_labels=lambda nm: {"OPT"} if nm in opt_params else set())
+        bad: List[Tuple[ast.AST, str]] = []
+        for n in cfg.nodes:
+            tests: List[Tuple[ast.AST, dict]] = []
+            if n.kind == "cond":
+                tests.append((n.ast, {}))
+            for e in ([n.ast] if n.kind in ("stmt", "cond", "iter") and n.ast is not None else []):
+                for x in walk_no_defs(e):
+                    if isinstance(x, ast.IfExp):
+                        tests.append((x.test, {}))
+                    if isinstance(x, ast.BoolOp) and not (n.kind == "cond" and x is n.ast):
+                        for v in x.values[:-1]:
+                            tests.append((v, {}))
+                    if isinstance(x, (ast.ListComp, ast.SetComp, ast.GeneratorExp, ast.DictComp)):
+                        b = {}
+                        for g in x.generators:
+                            lab = t.of(g.iter, n, b)
+                            if "OPTS" in lab:
+                                lab = (set(lab) - {"OPTS"}) | {"OPT"}  # the element of a collection of indices is an index
+                            for nm in ast.walk(g.target):
+                                if isinstance(nm, ast.Name):
+                                    b[nm.id] = lab
+                            for cond in g.ifs:
+                                tests.append((cond, dict(b)))
+                    if isinstance(x, ast.Call) and dotted(x.func) == "filter" and x.args and isinstance(x.args[0], ast.Constant) and x.args[0].value is None:
+                        tests.append((x.args[1], {}))
+            for test, b in tests:
+                for op in _truthy_operands(test):
+                    lab = t.of(op, n, b)
+                    if "OPT" in lab:
+                        bad.append((op, src(test)))
+            for e in ([n.ast] if n.ast is not None and n.kind in ("stmt", "cond") else []):
+                for x in walk_no_defs(e):
+                    if isinstance(x, ast.Attribute) and x.attr in fields:
+                        n_opt += 1
+        n_opt += len(opt_params)
+        if not bad and not opt_params and not any(isinstance(x, ast.Attribute) and x.attr in fields for x in walk_no_defs(fn.node)):
+            continue
+        ctx.check(not bad, "C03.PROV", f"{fn.qual}/index-tested-by-identity", fn.loc(bad[0][0]) if bad else fn.loc(),
+                  "provenance indices are only tested with `is None` / membership / ordering",
+                  f"`{src(bad[0][0]) if bad else ''}` (an Optional[int] provenance index) is tested for truthiness in `{bad[0][1][:50] if bad else ''}`: index 0 is conflated with None, "
+                  "so a delta originating from op #0 loses its provenance and escapes the cooldown filter")
+    ctx.floor("C03.PROV", "reads of Optional[int] provenance indices in t4", n_opt, 8)
+
+
 # --------------------------------------------------------------- ORDERINS
 def rule_orderins(ctx) -> None:
     ck = ctx.func(T4 + ":_canonical_key")
@@ -407,4 +510,5 @@ def run(ctx) -> None:
     rule_pipe(ctx)
     rule_bound(ctx)
     rule_prov(ctx)
+    rule_prov_index(ctx)
     rule_orderins(ctx)
